@@ -106,6 +106,9 @@ def instances(tier, seed):
     sp.cons = list(sp.cons) + [Con('<=', X(1), 4, grid='integrator_roots'), Con('<=', X(0) + X(1), 6, grid='integrator'), Con('<=', X(0), 5, grid='inf')]
     for h in (['CC'], ['SOLVE', 'CC', 'ST'], ['CC', 'AO', 'SOLVE']):
         add(history=h, spec=sp, cfg=Cfg('DC', N=2, M=2, grid=fam.G_UNI, degree=4, scheme='radau'))
+    # an Ocp without states or sub-stages (a plain NLP): guesses written in parameters follow values given after a query / a solve
+    for h in (['Q', 'SVP'], ['SOLVE', 'SVP', 'SVQ'], ['SVP', 'Q', 'SVQ', 'SOLVE', 'SVP'], ['Q', 'ST', 'SVQ'], ['SOLVE', 'SVQ', 'ST']):
+        add(kind='stateless-history', history=h)
     return items
 
 
@@ -427,9 +430,75 @@ def run_callback_history(item):
     return res
 
 
+def run_stateless_history(item):
+    """GROUND (evolved versus fresh): an Ocp WITHOUT states, controls or sub-stages (a plain NLP on the default method) whose guesses are written in a
+    parameter; the parameter gets new values after a query / a solve.  The starting point and the parameter vector of the next query must be those of a
+    fresh OCP declared with the final values."""
+    from rockit import Ocp
+    hist = item['history']
+    viol, proved = [], []
+
+    def build(pv, qv):
+        ocp = Ocp()
+        v = ocp.variable()
+        w = ocp.variable(2)
+        p = ocp.parameter()
+        q = ocp.parameter(2)
+        ocp.add_objective((v * v - p) ** 2 + ca.sumsqr(w - q))
+        ocp.subject_to(v >= 0)
+        ocp.set_value(p, pv)
+        ocp.set_value(q, qv)
+        ocp.set_initial(v, 0.5 * p)
+        ocp.set_initial(w, ca.vertcat(q[1] + p, 2 * q[0]))
+        ocp.solver('ipopt', {'ipopt.max_iter': 3, 'ipopt.print_level': 0, 'print_time': False})
+        return ocp, v, w, p, q
+
+    def start(ocp):
+        ocp._transcribed
+        op_ = ocp._method.opti
+        return [float(x_) for x_ in np.array(op_.debug.value(op_.x, op_.initial())).flatten()], [float(x_) for x_ in np.array(op_.debug.value(op_.p, op_.initial())).flatten()]
+    try:
+        with quiet():
+            pv, qv = 4.0, [1.0, 2.0]
+            ocp, v, w, p, q = build(pv, qv)
+            for op in hist:
+                if op == 'SOLVE':
+                    ocp.solve_limited()
+                elif op == 'Q':
+                    ocp.value(v)
+                    ocp._transcribed
+                elif op == 'SVP':
+                    pv = pv + 5.0
+                    ocp.set_value(p, pv)
+                elif op == 'SVQ':
+                    qv = [qv[0] + 1.5, qv[1] - 0.25]
+                    ocp.set_value(q, qv)
+                elif op == 'ST':
+                    ocp.subject_to(v <= 50)
+            xe, pe = start(ocp)
+            f_ = build(pv, qv)
+            if 'ST' in hist:
+                f_[0].subject_to(f_[1] <= 50)
+            xf, pf = start(f_[0])
+        if len(xe) == len(xf) and all(close(a_, b_) for a_, b_ in zip(xe, xf)) and len(pe) == len(pf) and all(close(a_, b_) for a_, b_ in zip(pe, pf)):
+            proved.append('stateless Ocp, history %s: starting point and parameter vector equal those of a fresh OCP (ground)' % hist)
+        else:
+            viol.append({'property': PROP, 'key': 'stateless-history|%s' % ('x0' if xe != xf else 'p'), 'label': str(hist),
+                         'detail': 'Ocp with variables only, guesses 0.5*p and [q1+p, 2*q0]; after %s the next query starts at x0=%s with p=%s, a fresh OCP with the final values starts at x0=%s with p=%s' % (hist, xe, pe, xf, pf)})
+    except Exception as e:
+        viol.append({'property': PROP, 'key': 'stateless-history|raises', 'label': str(hist), 'detail': 'history %s on an Ocp with variables only raised: %s' % (hist, str(e).strip().splitlines()[-1][:200])})
+    res = {'stats': {'unsat': 0, 'sat': 0, 'unknown': 0, 'queries': 0, 'solver_s': 0.0}, 'obligations': len(proved) + len(viol), 'discharged': len(proved), 'nontrivial': proved, 'violations': viol,
+           'twins_ok': 0, 'twins_bad': 0, 'shape': 'stateless-history', 'sample': {'history': hist}}
+    if viol:
+        res['status'] = 'violation'
+    return res
+
+
 def run(item):
     if item.get('kind') == 'callback-history':
         return run_callback_history(item)
+    if item.get('kind') == 'stateless-history':
+        return run_stateless_history(item)
     if item.get('kind') == 'multistage':
         return run_multistage(item)
     if item.get('kind') == 'density-history':
